@@ -218,7 +218,7 @@ func (p *polling) onDataRequest(ctx *types.HttpContext) {
 func (p *polling) OnData(data types.BufferInterface) {
 	polling_log.Debug(`received "%s"`, data)
 
-	packets, _ := p.decodePayload(data)
+	packets, err := p.decodePayload(data)
 	for _, packetData := range packets {
 		if packet.CLOSE == packetData.Type {
 			polling_log.Debug("got xhr close packet")
@@ -227,6 +227,11 @@ func (p *polling) OnData(data types.BufferInterface) {
 		}
 
 		p.OnPacket(packetData)
+	}
+	if err != nil {
+		// the packets ahead of the malformed one have been delivered; the
+		// session ends with a parse error, as on the frame-based transports
+		p.OnPacket(&packet.Packet{Type: packet.ERROR, Data: types.NewStringBuffer([]byte("parser error"))})
 	}
 }
 
